@@ -772,6 +772,13 @@ def run_wrap(ctx):
                     _, d, c = ev('%s:loader:%s' % (kind, sname), main, {supname: supimg}, has_loader=True, follow=True, expect_view=svx,
                                  expect_sup=supsv, want_dump=True)
                     same_dump(kind, d, c)
+                    # the two transforms composed: the same debug file reached through a CRC-checked link from a stripped
+                    # file — the target's own supplementary link must still be followed (the usual distro layout; a seeded
+                    # follow_links=False in the recursive call was missed while each link kind was exercised alone)
+                    lname = b'via.debug'
+                    via = B.plain(p, strip=True, extra=[('.gnu_debuglink', B.debuglink(p, lname, binascii.crc32(main)))])
+                    ev('%s:via-debuglink:%s' % (kind, sname), via, {lname: main, supname: supimg}, has_loader=True, follow=True,
+                       expect_view=svx, expect_sup=supsv)
                     ev('%s:noloader' % kind, main, {supname: supimg}, has_loader=False, follow=True, expect_view=svx, expect_sup='absent')
                     ev('%s:nofollow' % kind, main, {supname: supimg}, has_loader=True, follow=False, expect_view=svx, expect_sup='absent')
                 if ctx.tier == 'quick':
